@@ -92,6 +92,19 @@ def run(prog, tier):
         obs.append(struct_ob("marginal-passthrough", qual(c, gm) + f"[{k}]", ok,
                              f"the marginal must be built from get_parameter(index, burn=burn, thin=thin); call is `{U(call)}`",
                              c.module.relpath, call.lineno))
+    # ... and the estimators receive that read-out itself: as a resolved term, the data argument of every density estimator built in
+    # get_marginal is the call (a local holding it is looked through; a re-binding that selects from it is part of the term)
+    rgm = Resolver(gm, prog, c.module, c)
+    est = [(n, rgm.stmt_of(n)) for n in ast.walk(gm) if isinstance(n, ast.Call) and isinstance(n.func, ast.Name)
+           and n.func.id in ("UnimodalPdf", "GaussianKDE", "KDE2D", "BinaryTree") and n.args]
+    whym = []
+    for n, st_ in est:
+        t_ = rgm.term(n.args[0], st_)
+        if pmatch(t_, "self.get_parameter(index, burn=burn, thin=thin)") is None and pmatch(t_, "self.get_parameter(index, burn, thin)") is None:
+            whym.append(f"line {n.lineno}: {n.func.id} receives `{U(t_)[:120]}`")
+    obs.append(struct_ob("marginal-passthrough", qual(c, gm) + "[estimator-input]", bool(est) and not whym,
+                         "the density estimate must be built from exactly the burned / thinned values of the parameter: " + "; ".join(whym[:2]),
+                         c.module.relpath, gm.lineno, tier="F"))
     for rel, mi in prog.by_rel.items():
         for n in lints.unraised_exceptions(mi.tree):
             info.append(f"lint (not tied to a property): exception constructed but not raised at {rel}:{n.lineno}")
@@ -395,10 +408,30 @@ def _parallel(prog, c, fn):
                 visit(st.body, cond + [U(st.test)])
                 visit(st.orelse, cond + ["not " + U(st.test)])
                 continue
+            # the values themselves are read-outs: nothing shifts, scales or overwrites them in place
+            tg_ = st.target if isinstance(st, ast.AugAssign) else st.targets[0] if isinstance(st, ast.Assign) and len(st.targets) == 1 else None
+            if tg_ is not None and (isinstance(st, ast.AugAssign) or isinstance(tg_, ast.Subscript)):
+                b_ = tg_
+                while isinstance(b_, (ast.Subscript, ast.Attribute)):
+                    b_ = b_.value
+                if isinstance(b_, ast.Name) and b_.id in role:
+                    problems.append(f"`{U(st)[:80]}` changes the values of `{b_.id}` in place: what is returned is no longer the recorded "
+                                    f"{'log-probabilities' if role[b_.id] == 'probs' else 'samples'}")
+                continue
             if not isinstance(st, ast.Assign) or len(st.targets) != 1:
                 continue
             tgt, val = st.targets[0], st.value
             pairs = []
+            if isinstance(tgt, ast.Name) and tgt.id == "thin" and "thin" in [a.arg for a in fn.args.args]:
+                # the thinning derived from a requested number of rows is a positive step: size // samples is 0 as soon as more rows
+                # are requested than are stored, and a slice step of 0 raises
+                tt_ = rz.term(val, st, keep=names)
+                if not any(pmatch(tt_, pt_) is not None for pt_ in ("max(_q // _s, 1)", "max(1, _q // _s)", "maximum(_q // _s, 1)", "_q // _s or 1",
+                                                                   "max(int(_q / _s), 1)", "max(1, int(_q / _s))")):
+                    if pmatch(tt_, "_q // _s") is not None or pmatch(tt_, "int(_q / _s)") is not None:
+                        problems.append(f"`{U(st)[:80]}`: the derived thinning is 0 when more rows are requested than stored (a slice step of 0 raises)")
+                    else:
+                        raise AnalysisError(f"parallel-arrays: the derived thinning `{U(tt_)[:80]}` in {qual(c, fn)} is not a recognised positive step - not decided")
             if isinstance(tgt, ast.Name):
                 pairs = [(tgt.id, val)]
             elif isinstance(tgt, ast.Tuple) and isinstance(val, ast.Tuple) and len(tgt.elts) == len(val.elts):
